@@ -154,6 +154,7 @@ OnWrite(g, e) ==
       vs == Chk("C18.one", s, e.nl)
             \cup (IF ln.twinkind = "value" THEN Chk("C17.reply", s, e.text = Expected(ln.twk, ln.twin) \o "\n") ELSE {})
             \cup (IF isHelp THEN Chk("C16.help", s, e.usage = ln.cmd /\ e.hashelp) ELSE {})
+            \cup (IF isHelp /\ ln.doc # "" THEN Chk("C16.describes", s, e.hasdoc) ELSE {})
             \cup (IF ln.cls = "nonpublic" THEN Chk("C16.nonpublic", s, e.invalid) ELSE {})
             \cup (IF (isHelp \/ isMal) /\ ln.ref # "" THEN Chk("C18.own", s, e.text = ln.ref) ELSE {})
             \cup (IF (isHelp \/ isMal \/ ln.twinkind = "converr") /\ ln.ser THEN Chk("C18.noeffect", s, e.pobs = ln.pobs) ELSE {})
@@ -173,10 +174,13 @@ OnIdle(g, e) ==
   (* the loop is idle: every session that is not inside a waiting method has answered all its lines; the
      served pool and the twin pool (driven by direct calls) are in the same observable state *)
   LET waiting(s) == Len(g.q[s]) > 0 /\ (Head(g.q[s]).twinkind = "await" \/ Head(g.q[s]).cls = "await")
+                    /\ ~(Head(g.q[s]).twinkind = "await" /\ Head(g.q[s]).twi \in SeqSet(e.twdone))
       vs == UNION {IF g.ended[s] \/ waiting(s) THEN {} ELSE Chk("C18.one", s, Len(g.q[s]) = 0) : s \in Sess}
             \cup UNION {Chk("C16.name", s, ~(g.st.ss[s].ph = "connected" /\ g.nw[s] = 0)) : s \in Sess}
             \* a well-formed command whose direct call has returned / raised must have been answered by now
-            \cup UNION {IF ~g.ended[s] /\ Len(g.q[s]) > 0 /\ Head(g.q[s]).twinkind = "value" /\ Head(g.q[s]).ser
+            \cup UNION {IF ~g.ended[s] /\ Len(g.q[s]) > 0 /\ Head(g.q[s]).ser
+                           /\ (Head(g.q[s]).twinkind = "value"
+                               \/ (Head(g.q[s]).twinkind = "await" /\ Head(g.q[s]).twi \in SeqSet(e.twdone)))
                         THEN Chk("C17.reply", s, FALSE) ELSE {} : s \in Sess}
             \cup (IF e.tobs # "" /\ \A s \in Sess : ~waiting(s) THEN Chk("C17.state", -1, e.pobs = e.tobs /\ e.samecalls) ELSE {})
   IN MOut(g, vs, Hit("C18.one", TRUE) \cup Hit("C17.state", e.tobs # ""))
@@ -214,6 +218,8 @@ SockMon(g0, e) ==
               Chk("C19.stop", -1, e.done /\ ~e.serving /\ ~e.connect /\ (e.tr = "unix" => ~e.sock)), Hit("C19.stop", TRUE))
     [] e.e = "running" ->
          MOut(g, Chk("C19.running", -1, ~e.done /\ e.serving /\ e.connect), Hit("C19.running", TRUE))
+    [] e.e = "hung" ->        \* the serving process stopped responding altogether
+         MOut(g, Chk("C19.responsive", -1, FALSE), {})
     [] OTHER -> g
 
 CtlMon(g0, e) ==
